@@ -16,6 +16,9 @@ def sorted_stmts(f):
 
 
 def check(prog, rep, tier):
+    rep.rule('R20.f', 'one key for one peer: the handler opens its file under the configured peer address and every callback '
+                      'looks it up under factory.peer_addr - BGPPeering keeps the address it was given verbatim')
+    peer_addr_verbatim(prog, rep)
     rep.rule('R20.a', 'one line per event: every handler callback calls write_msg exactly once (keepalive: only '
                       'under its option; on_established: never), always with msg={"msg": ...}; the record has the '
                       'keys t, seq, type')
@@ -389,3 +392,31 @@ def ancestors(par, node, stop):
         cur = par[cur]
         out.append(cur)
     return out
+
+
+
+def peer_addr_verbatim(prog, rep):
+    import ast
+    from ..front import src_of
+    f = prog.func('yabgp.core.factory.BGPPeering.__init__')
+    stores = [n for n in ast.walk(f.node) if isinstance(n, ast.Assign) and
+              any(isinstance(t, ast.Attribute) and t.attr == 'peer_addr' and src_of(t.value) == 'self' for t in n.targets)]
+    others = [(g, n) for g in prog.all_functions() if g is not f for n in ast.walk(g.node)
+              if isinstance(n, (ast.Assign, ast.AugAssign)) and any(
+                  isinstance(t, ast.Attribute) and t.attr == 'peer_addr' and
+                  src_of(t.value) in ('self', 'self.factory', 'factory')
+                  for t in (n.targets if isinstance(n, ast.Assign) else [n.target]))
+              and g.module.name.startswith('yabgp.core')]
+    key = 'peer-addr-verbatim'
+    if len(stores) != 1:
+        rep.undecided('R20.f', key, file=f.file, line=f.node.lineno, found='%d stores of self.peer_addr' % len(stores))
+        return
+    v = common.unalias(f.node, stores[0].value)
+    if v in f.params and not others:
+        rep.ok('R20.f', key, file=f.file, line=stores[0].lineno, found=src_of(stores[0]))
+    else:
+        st = stores[0] if v not in f.params else others[0][1]
+        rep.bad('R20.f', key, file=f.file, line=st.lineno, func=f.qualname,
+                found='%s: the address the callbacks use as file key is no longer the configured string the handler '
+                      'opened the file under (any spelling the transformation changes finds no file: nothing is '
+                      'written)' % src_of(st), expected='self.peer_addr = <constructor argument>', key=key)
